@@ -109,6 +109,37 @@ def harness(binname, args, stdin=None, timeout=3600, env=None, check=True):
     return p
 
 
+HOOKED_TARGET = os.path.join(HARNESS, "target-hooked")
+_built_hooked = set()
+
+
+def harness_hooked(binname, args, timeout=3600, env=None):
+    """Build (into harness/target-hooked, with sylt compiled with --cfg sylt_verif: the hooks recorded in MANIFEST.hooks)
+    and run a harness binary that needs the instrumented compiler."""
+    e = dict(os.environ, CARGO_NET_OFFLINE="true", CARGO_TARGET_DIR=HOOKED_TARGET,
+             RUSTFLAGS="--cfg sylt_verif --check-cfg cfg(sylt_verif)")
+    if binname not in _built_hooked:
+        p = subprocess.run(["cargo", "build", "--offline", "-q", "--bin", binname], cwd=HARNESS, env=e,
+                           stdout=subprocess.PIPE, stderr=subprocess.STDOUT, text=True)
+        if p.returncode != 0:
+            sys.stderr.write(p.stdout[-6000:])
+            tool_error("hooked harness build failed (does /repo compile with --cfg sylt_verif?)")
+        _built_hooked.add(binname)
+    e = dict(os.environ)
+    e["VERIF_ROOT"] = ROOT
+    if env:
+        e.update(env)
+    try:
+        p = subprocess.run([os.path.join(HOOKED_TARGET, "debug", binname)] + [str(a) for a in args], env=e,
+                           stdout=subprocess.PIPE, stderr=subprocess.PIPE, text=True, timeout=timeout)
+    except subprocess.TimeoutExpired:
+        tool_error("harness %s timed out after %ss" % (binname, timeout))
+    if p.returncode != 0:
+        sys.stderr.write(p.stderr[-4000:])
+        tool_error("hooked harness %s exited %d" % (binname, p.returncode))
+    return p
+
+
 # --------------------------------------------------------------------------- work dirs
 
 def workdir(pid, clean=True):
